@@ -84,13 +84,14 @@ def correspondence(ctx, violations, known_hits):
 
     r = dbgcommon.run_dbg_cases(ctx, cases, tags, violations, profiles, aux=AUX, extra=sorted_check,
                                 note="model: a breakpoint at PC pauses before execution on every arrival (C11_fires); list sorted and duplicate-free (C11_sorted)")
+    real = dbgcommon.cli_cross(ctx, specs, violations, limit=(30 if ctx.tier == "quick" else 600))
     ctx.cleanup()
     return dbgcommon.coverage(r,
         "EXHAUSTIVE placements of .break (before the first statement, between any two, after the last, doubled, with a label) in "
         "programs of <= 4 (thorough: 6) statements x every resuming command, observing `registers` at each pause and `break list`; "
         "run-time add/remove by absolute address, label +- offset and ^offset on loops that revisit the breakpoint, PC moved by goto "
         "between pause and resume; the implementation's final list is additionally checked to be sorted and duplicate-free", profiles,
-        exhaustive=True, exhaustive_over=".break placements in programs up to the stated size")
+        exhaustive=True, exhaustive_over=".break placements in programs up to the stated size", real_binary_without_hooks=real)
 
 
 def replay(ctx, payload):
